@@ -49,6 +49,12 @@
 (* Sign of the signed distance: positive inside, negative outside (the     *)
 (* docstring of proximity.signed_distance).                                *)
 (*                                                                         *)
+(* The harness also runs the same scene translated far from the origin by  *)
+(* an exact integer offset (mesh, ray origins, query points alike) and     *)
+(* subtracts the offset from every returned coordinate: translation does   *)
+(* not change any answer, so such records are judged here in the lattice   *)
+(* frame like the others (field pl only names the placement).              *)
+(*                                                                         *)
 (* The harness sends integers only.  A float the implementation returned   *)
 (* is snapped to the nearest fraction with a bounded denominator and the   *)
 (* residual is tested; a value that does not snap arrives with a           *)
